@@ -24,4 +24,19 @@ BBoxValid(bb, isnil) == ~isnil /\ Len(bb) >= 4 /\ Len(bb) % 2 = 0
 BBoxBound(bb, isnil) == IF ~BBoxValid(bb, isnil) THEN <<0, 0, 0, 0>>
                         ELSE LET m == Len(bb) \div 2 IN <<bb[1], bb[2], bb[m + 1], bb[m + 2]>>
 RingClosed(r) == Len(r) >= 4 /\ r[1] = r[Len(r)]
+\* edge cases of small functions: what the function must do, in the vocabulary of the harness
+EdgeOutcome(what) ==
+   CASE what \in {"along.empty", "along.nil"} -> "panic"                   \* documented: panics on an empty line
+     [] what \in {"along.negative", "along.single", "along.zero"} -> "first"  \* the first vertex, bearing 0
+     [] what = "along.beyond" -> "last"
+     [] what \in {"czr.inverted", "czr.shallow"} -> "panic"                 \* documented argument checks
+     [] what = "czr.same" -> "self"
+     [] what = "qt.bound" -> "want"
+     [] what \in {"clipbound.bothempty", "clipbound.firstempty", "clipbound.secondempty", "clipbound.overlap",
+                  "clipbound.commutes", "clipgeom.bound"} -> "want"         \* an empty bound is the neutral element
+     [] what = "clipbound.disjoint" -> "empty"
+     [] what = "clipgeom.bound.disjoint" -> "nil"
+     [] what \in {"around.pole.north", "around.pole.south"} -> "capped"     \* every longitude, stops at the pole
+     [] what \in {"around.antimeridian.east", "around.antimeridian.west"} -> "wrapped"
+     [] OTHER -> "unlisted"
 =============================================================================
